@@ -1,7 +1,262 @@
-/-! Prototype: EngineControl::computeTimeLimit (clock branch) and the single-move clamp of startThread -/
+/-!
+# Time allocation (property C06)
+
+Executable model of `EngineControl::computeTimeLimit` (app/texel/enginecontrol.cpp), of the single-legal-move
+clamp in `EngineControl::startThread`, of what `startSearch` / `startPonder` / `ponderHit` / `stopThread` hand to
+`Search::timeLimit`, written field by field.
+
+C++ `int` arithmetic is modelled by `Int` with `Int.tdiv` for `/` (truncation towards zero); overflow is outside the
+property's domain (clock ≤ 10^7 ms, increment ≤ 10^5 ms, at most 200 moves).
+
+The two floating-point steps of the C++ code are *parameters* of the model (`FP`):
+* `bonus oTimeLimit timeLimit rate` = `(int)(std::min(oTimeLimit, timeLimit / (1 - k)) * k)` with `k = rate * 0.01`
+* `scale minT moves maxUsage`      = `(int)(minT * clamp(moves * 0.5, 2.0, maxUsage * 0.01))`
+The theorems need nothing about `bonus` and only `FP.ScaleOk` about `scale` (see below).  `Drv/Time.lean`
+instantiates `FP` with IEEE doubles (Lean `Float`) for the differential run against the real code, and `fpExact`
+below is the exact rational instance, for which `ScaleOk` is proved.
+-/
 namespace Tm
 
 def clamp (v lo hi : Int) : Int := min (max v lo) hi
+
+/-- Time management parameters (lib/texellib/parameters.hpp:441-445). -/
+structure Params where
+  maxRem : Int      -- timeMaxRemainingMoves, declared range 2..200, default 35
+  buffer : Int      -- BufferTime (UCI option), 1..10000, default 1000
+  maxUsage : Int    -- maxTimeUsage, 100..1000, default 400
+  ponderRate : Int  -- timePonderHitRate, 0..99, default 35
+  minUsage : Int    -- minTimeUsage, 1..100, default 85
+  deriving Repr
+
+def Params.default : Params := { maxRem := 35, buffer := 1000, maxUsage := 400, ponderRate := 35, minUsage := 85 }
+
+/-- The declared parameter ranges. -/
+def Params.Ok (p : Params) : Prop :=
+  2 ≤ p.maxRem ∧ p.maxRem ≤ 200 ∧ 1 ≤ p.buffer ∧ p.buffer ≤ 10000 ∧ 100 ≤ p.maxUsage ∧ p.maxUsage ≤ 1000 ∧
+  0 ≤ p.ponderRate ∧ p.ponderRate ≤ 99 ∧ 1 ≤ p.minUsage ∧ p.minUsage ≤ 100
+
+/-- The floating-point steps, abstracted. -/
+structure FP where
+  bonus : (oTimeLimit timeLimit rate : Int) → Int
+  scale : (minT moves maxUsage : Int) → Int
+
+/-- The only fact about floating point the theorems use: scaling a positive time by the factor
+    `clamp(moves*0.5, 2.0, maxUsage*0.01)` does not make it smaller.  True for IEEE doubles because the factor is
+    `≥ 1.0` when `maxUsage ≥ 100` (`100 * 0.01` rounds to exactly `1.0`, and `x ↦ x * 0.01` is monotone), multiplication
+    by a factor `≥ 1.0` is monotone and `m * 1.0 = m` exactly, and truncation of a double `≥ m` is `≥ m`. -/
+def FP.ScaleOk (fp : FP) : Prop := ∀ m moves mu : Int, 1 ≤ m → 100 ≤ mu → m ≤ fp.scale m moves mu
+
+/-- The arguments of `go` (class SearchParams). -/
+structure Go where
+  wTime : Int := 0
+  bTime : Int := 0
+  wInc : Int := 0
+  bInc : Int := 0
+  movesToGo : Int := 0
+  depth : Int := 0
+  nodes : Int := 0
+  mate : Int := 0
+  moveTime : Int := 0
+  infinite : Bool := false
+  deriving Repr
+
+/-- The five members `computeTimeLimit` sets. -/
+structure Alloc where
+  minT : Int
+  maxT : Int
+  early : Int
+  maxDepth : Int
+  maxNodes : Int
+  deriving Repr, DecidableEq
+
+/-- `moves`: moves-to-go, 0 meaning "sudden death" (999), capped by `timeMaxRemainingMoves`. -/
+def movesEff (mtg maxRem : Int) : Int := min (if mtg = 0 then 999 else mtg) maxRem
+
+/-- `margin = std::min(bufferTime, time * 9 / 10)`. -/
+def margin (buffer time : Int) : Int := min buffer ((time * 9).tdiv 10)
+
+/-- The clock budget as the code defines it: `time - margin`. -/
+def budget (buffer time : Int) : Int := time - margin buffer time
+
+/-- `timeLimit = (time + inc * (moves - 1) - margin) / moves`. -/
+def timeLimit0 (time inc moves mg : Int) : Int := (time + inc * (moves - 1) - mg).tdiv moves
+
+/-- `minTimeLimit` before the clamp (with the ponder bonus if the Ponder option is on). -/
+def clockMin0 (fp : FP) (p : Params) (time inc oTime oInc mtg : Int) (ponderOpt : Bool) : Int :=
+  let moves := movesEff mtg p.maxRem
+  let mg := margin p.buffer time
+  let tl := timeLimit0 time inc moves mg
+  if ponderOpt then tl + fp.bonus (timeLimit0 oTime oInc moves mg) tl p.ponderRate else tl
+
+/-- `maxTimeLimit` before the clamp. -/
+def clockMax0 (fp : FP) (p : Params) (time inc oTime oInc mtg : Int) (ponderOpt : Bool) : Int :=
+  fp.scale (clockMin0 fp p time inc oTime oInc mtg ponderOpt) (movesEff mtg p.maxRem) p.maxUsage
+
+def clockSoft (fp : FP) (p : Params) (time inc oTime oInc mtg : Int) (ponderOpt : Bool) : Int :=
+  clamp (clockMin0 fp p time inc oTime oInc mtg ponderOpt) 1 (budget p.buffer time)
+
+def clockHard (fp : FP) (p : Params) (time inc oTime oInc mtg : Int) (ponderOpt : Bool) : Int :=
+  clamp (clockMax0 fp p time inc oTime oInc mtg ponderOpt) 1 (budget p.buffer time)
+
+/-- `maxDepth` from `depth` and `mate`. -/
+def depthLimit (g : Go) : Int :=
+  let d := if g.depth > 0 then g.depth else -1
+  if g.mate > 0 then (if d = -1 then g.mate * 2 - 1 else min d (g.mate * 2 - 1)) else d
+
+def nodeLimit (g : Go) : Int := if g.nodes > 0 then g.nodes else -1
+
+def moverTime (white : Bool) (g : Go) : Int := if white then g.wTime else g.bTime
+def moverInc (white : Bool) (g : Go) : Int := if white then g.wInc else g.bInc
+def otherTime (white : Bool) (g : Go) : Int := if white then g.bTime else g.wTime
+def otherInc (white : Bool) (g : Go) : Int := if white then g.bInc else g.wInc
+
+/-- Which branch of `computeTimeLimit` is taken. -/
+inductive Mode | infinite | moveTime | clock | none
+  deriving DecidableEq, Repr
+
+def mode (g : Go) : Mode :=
+  if g.infinite then .infinite
+  else if g.moveTime > 0 then .moveTime
+  else if g.wTime ≠ 0 ∨ g.bTime ≠ 0 then .clock
+  else .none
+
+/-- `EngineControl::computeTimeLimit`; `white` = side to move, `ponderOpt` = UCI option Ponder. -/
+def compute (fp : FP) (p : Params) (white ponderOpt : Bool) (g : Go) : Alloc :=
+  match mode g with
+  | .infinite => { minT := -1, maxT := -1, early := -1, maxDepth := -1, maxNodes := -1 }
+  | .moveTime => { minT := g.moveTime, maxT := g.moveTime, early := 10000, maxDepth := depthLimit g, maxNodes := nodeLimit g }
+  | .clock =>
+    { minT := clockSoft fp p (moverTime white g) (moverInc white g) (otherTime white g) (otherInc white g) g.movesToGo ponderOpt
+      maxT := clockHard fp p (moverTime white g) (moverInc white g) (otherTime white g) (otherInc white g) g.movesToGo ponderOpt
+      early := -1, maxDepth := depthLimit g, maxNodes := nodeLimit g }
+  | .none => { minT := -1, maxT := -1, early := -1, maxDepth := depthLimit g, maxNodes := nodeLimit g }
+
+/-- The time budget of a `go`: the fixed move time, resp. the mover's clock minus the margin. -/
+def goBudget (p : Params) (white : Bool) (g : Go) : Int :=
+  if g.moveTime > 0 then g.moveTime else budget p.buffer (moverTime white g)
+
+/-- A `go` with a time control inside the property's domain: not `infinite`, and a move time or a positive clock of the mover. -/
+def Go.Timed (g : Go) (white : Bool) : Prop := g.infinite = false ∧ (g.moveTime > 0 ∨ 1 ≤ moverTime white g)
+
+/-! ## What is handed to `Search::timeLimit` -/
+
+/-- The limits as `Search` stores them (`minTimeMillis`, `maxTimeMillis`, `earlyStopPercentage`). -/
+structure Lim where
+  minT : Int
+  maxT : Int
+  early : Int
+  deriving Repr, DecidableEq
+
+/-- `Search::timeLimit`: `earlyStopPercentage = earlyStopPercent > 0 ? earlyStopPercent : minTimeUsage`. -/
+def storeLim (p : Params) (minT maxT early : Int) : Lim :=
+  { minT := minT, maxT := maxT, early := if early > 0 then early else p.minUsage }
+
+/-- `startSearch`: `infinite = maxTimeLimit < 0 && maxDepth < 0 && maxNodes < 0`. -/
+def isInfinite (a : Alloc) : Bool := decide (a.maxT < 0) && decide (a.maxDepth < 0) && decide (a.maxNodes < 0)
+
+/-- `startThread`: `onePossibleMove = moves->size < 2 && !infinite`. -/
+def onePossible (nMoves : Int) (infinite : Bool) : Bool := decide (nMoves < 2) && !infinite
+
+/-- single-legal-move clamp of `startThread` (only when not pondering and `maxTimeLimit > 0`). -/
+def singleMin (minT maxT : Int) : Int := if maxT > 0 then clamp (minT.tdiv 100) 1 100 else minT
+def singleMax (maxT : Int) : Int := if maxT > 0 then clamp (maxT.tdiv 100) 1 100 else maxT
+/-- and the depth cap when there is no time limit. -/
+def singleDepth (maxT maxDepth : Int) : Int :=
+  if maxT > 0 then maxDepth else if maxDepth < 0 ∨ maxDepth > 2 then 2 else maxDepth
+
+/-- Limits handed to `Search::timeLimit` by `startSearch` (not pondering). -/
+def startLim (p : Params) (a : Alloc) (nMoves : Int) : Lim :=
+  if onePossible nMoves (isInfinite a) then storeLim p (singleMin a.minT a.maxT) (singleMax a.maxT) a.early
+  else storeLim p a.minT a.maxT a.early
+
+/-- `maxDepth` handed to the search by `startSearch`. -/
+def startDepth (a : Alloc) (nMoves : Int) : Int :=
+  if onePossible nMoves (isInfinite a) then singleDepth a.maxT a.maxDepth else a.maxDepth
+
+/-- `startPonder` hands over no limits at all (`startThread(-1, -1, -1, -1, -1, …)`). -/
+def ponderLim (p : Params) : Lim := storeLim p (-1) (-1) (-1)
+
+/-- `ponderHit`: with one possible move both limits are cut to at most 1 ms. -/
+def hitMin (minT : Int) (one : Bool) : Int := if one ∧ minT > 1 then 1 else minT
+def hitMax (maxT : Int) (one : Bool) : Int := if one ∧ maxT > 1 then 1 else maxT
+def ponderHitLim (p : Params) (a : Alloc) (nMoves : Int) : Lim :=
+  storeLim p (hitMin a.minT (onePossible nMoves false)) (hitMax a.maxT (onePossible nMoves false)) a.early
+
+/-- `stopThread`: `sc->timeLimit(0, 0)`. -/
+def stopLim (p : Params) : Lim := storeLim p 0 0 (-1)
+
+/-! ## Exact rational instance of the floating-point steps -/
+
+/-- `(int)(m * clamp(moves/2, 2, mu/100))` in exact arithmetic (factor as hundredths). -/
+def scaleExact (m moves mu : Int) : Int := (m * min (max (moves * 50) 200) mu).tdiv 100
+
+/-- `(int)(min(o, tl/(1-k)) * k)`, `k = rate/100`, in exact arithmetic (compare `o` with `tl*100/(100-rate)` by
+    cross-multiplication, `rate < 100`). -/
+def bonusExact (o tl rate : Int) : Int :=
+  if o * (100 - rate) ≤ tl * 100 then (o * rate).tdiv 100 else (tl * rate).tdiv (100 - rate)
+
+def fpExact : FP := { bonus := bonusExact, scale := scaleExact }
+
+theorem fpExact_scaleOk : fpExact.ScaleOk := by
+  intro m moves mu hm hmu
+  show m ≤ (m * min (max (moves * 50) 200) mu).tdiv 100
+  have hf : 100 ≤ min (max (moves * 50) 200) mu := by omega
+  generalize min (max (moves * 50) 200) mu = f at hf
+  have h1 : m * 100 ≤ m * f := Int.mul_le_mul_of_nonneg_left hf (by omega)
+  have h0 : 0 ≤ m * f := by omega
+  rw [Int.tdiv_eq_ediv_of_nonneg h0]
+  omega
+
+/-! ## Lemmas -/
+
+theorem margin_le (buffer time : Int) (ht : 1 ≤ time) : margin buffer time ≤ time * 9 / 10 := by
+  unfold margin
+  rw [Int.tdiv_eq_ediv_of_nonneg (by omega)]
+  exact Int.min_le_right _ _
+
+theorem margin_eq (buffer time : Int) (ht : 1 ≤ time) : margin buffer time = min buffer (time * 9 / 10) := by
+  unfold margin
+  rw [Int.tdiv_eq_ediv_of_nonneg (by omega)]
+
+theorem budget_pos (buffer time : Int) (ht : 1 ≤ time) : 1 ≤ budget buffer time := by
+  have := margin_le buffer time ht
+  unfold budget; omega
+
+/-- Core of `limits_ok`: the two clamps, for an arbitrary unclamped soft value. -/
+theorem clamp_pair_ok (m0 m1 B : Int) (hB : 1 ≤ B) (h : 1 ≤ m0 → m0 ≤ m1) :
+    1 ≤ clamp m0 1 B ∧ clamp m0 1 B ≤ clamp m1 1 B ∧ clamp m1 1 B ≤ B := by
+  unfold clamp
+  by_cases h1 : 1 ≤ m0
+  · have := h h1; omega
+  · omega
+
+theorem clock_ok (fp : FP) (p : Params) (time inc oTime oInc mtg : Int) (ponderOpt : Bool)
+    (ht : 1 ≤ time) (hmu : 100 ≤ p.maxUsage) (hs : fp.ScaleOk) :
+    1 ≤ clockSoft fp p time inc oTime oInc mtg ponderOpt ∧
+    clockSoft fp p time inc oTime oInc mtg ponderOpt ≤ clockHard fp p time inc oTime oInc mtg ponderOpt ∧
+    clockHard fp p time inc oTime oInc mtg ponderOpt ≤ budget p.buffer time := by
+  unfold clockSoft clockHard clockMax0
+  exact clamp_pair_ok _ _ _ (budget_pos _ _ ht) (fun h => hs _ _ _ h hmu)
+
+/-- single-move clamp preserves `1 ≤ soft ≤ hard ≤ B`. -/
+theorem single_ok (minT maxT B : Int) (h : 1 ≤ minT ∧ minT ≤ maxT ∧ maxT ≤ B) :
+    1 ≤ singleMin minT maxT ∧ singleMin minT maxT ≤ singleMax maxT ∧ singleMax maxT ≤ B ∧ singleMax maxT ≤ 100 := by
+  have hp : maxT > 0 := by omega
+  simp only [singleMin, singleMax, if_pos hp, clamp]
+  rw [Int.tdiv_eq_ediv_of_nonneg (by omega), Int.tdiv_eq_ediv_of_nonneg (by omega)]
+  omega
+
+theorem hit_ok (minT maxT B : Int) (one : Bool) (h : 1 ≤ minT ∧ minT ≤ maxT ∧ maxT ≤ B) :
+    1 ≤ hitMin minT one ∧ hitMin minT one ≤ hitMax maxT one ∧ hitMax maxT one ≤ B := by
+  unfold hitMin hitMax
+  cases one <;> simp <;> (repeat' split) <;> omega
+
+/-! ## The round-0 prototype of the clock branch
+
+`alloc` / `alloc_ok` / `singleMoveClamp` / `singleMove_ok` are kept with their original definitions and signatures (Euclidean `/`,
+bonus as a number, scale as a function): `Bridge/Time.lean` (translator tie, regenerated from enginecontrol.cpp) proves that the
+integer slices of the C++ function compose to exactly `alloc`.  `alloc_eq_clock` connects `alloc` with the model above on the
+property's domain (where truncating and Euclidean division agree). -/
 
 structure Limits where
   soft : Int
@@ -19,23 +274,13 @@ def alloc (time inc movesToGo maxRem buffer bonus : Int) (scale : Int → Int) :
   { soft := clamp min0 1 (time - margin), hard := clamp max0 1 (time - margin) }
 
 theorem alloc_ok (time inc movesToGo maxRem buffer bonus : Int) (scale : Int → Int)
-    (ht : 1 ≤ time) (hb : 1 ≤ buffer) (hscale : ∀ m, 1 ≤ m → m ≤ scale m) :
+    (ht : 1 ≤ time) (_hb : 1 ≤ buffer) (hscale : ∀ m, 1 ≤ m → m ≤ scale m) :
     let L := alloc time inc movesToGo maxRem buffer bonus scale
     let budget := time - min buffer (time * 9 / 10)
     1 ≤ L.soft ∧ L.soft ≤ L.hard ∧ L.hard ≤ budget := by
-  simp only [alloc, clamp]
+  simp only [alloc]
   have hm : min buffer (time * 9 / 10) ≤ time * 9 / 10 := Int.min_le_right _ _
-  have hbud : 1 ≤ time - min buffer (time * 9 / 10) := by omega
-  generalize (time + inc * (min (if movesToGo = 0 then 999 else movesToGo) maxRem - 1) - min buffer (time * 9 / 10)) /
-      min (if movesToGo = 0 then 999 else movesToGo) maxRem + bonus = m0
-  generalize hB : time - min buffer (time * 9 / 10) = B at hbud
-  have hs := hscale m0
-  refine ⟨?_, ?_, ?_⟩
-  · omega
-  · by_cases h1 : 1 ≤ m0
-    · have := hs h1; omega
-    · omega
-  · omega
+  exact clamp_pair_ok _ _ _ (by omega) (hscale _)
 
 /-- startThread: one legal move and not pondering -/
 def singleMoveClamp (L : Limits) : Limits :=
@@ -49,5 +294,38 @@ theorem singleMove_ok (L : Limits) (B : Int) (h : 1 ≤ L.soft ∧ L.soft ≤ L.
   rw [if_pos this]
   simp only
   omega
+
+/-- The bonus `computeTimeLimit` adds when the Ponder option is on, as a number for `alloc`. -/
+def ponderBonus (fp : FP) (p : Params) (time inc oTime oInc mtg : Int) (ponderOpt : Bool) : Int :=
+  if ponderOpt then
+    fp.bonus (timeLimit0 oTime oInc (movesEff mtg p.maxRem) (margin p.buffer time))
+      (timeLimit0 time inc (movesEff mtg p.maxRem) (margin p.buffer time)) p.ponderRate
+  else 0
+
+/-- On the property's domain (`time, inc, movesToGo ≥ 0`, `timeMaxRemainingMoves ≥ 1`) the prototype `alloc` — the function the
+    translated C++ slices compose to — is the clock branch of the model. -/
+theorem alloc_eq_clock (fp : FP) (p : Params) (time inc oTime oInc mtg : Int) (ponderOpt : Bool)
+    (ht : 0 ≤ time) (hi : 0 ≤ inc) (hm : 0 ≤ mtg) (hr : 1 ≤ p.maxRem) :
+    let L := alloc time inc mtg p.maxRem p.buffer (ponderBonus fp p time inc oTime oInc mtg ponderOpt)
+               (fun m => fp.scale m (movesEff mtg p.maxRem) p.maxUsage)
+    L.soft = clockSoft fp p time inc oTime oInc mtg ponderOpt ∧ L.hard = clockHard fp p time inc oTime oInc mtg ponderOpt := by
+  have hmg : margin p.buffer time = min p.buffer (time * 9 / 10) := by
+    unfold margin; rw [Int.tdiv_eq_ediv_of_nonneg (by omega)]
+  have hmv : movesEff mtg p.maxRem = min (if mtg = 0 then 999 else mtg) p.maxRem := rfl
+  have hmv1 : 1 ≤ movesEff mtg p.maxRem := by rw [hmv]; split <;> omega
+  have hprod : 0 ≤ inc * (movesEff mtg p.maxRem - 1) := Int.mul_nonneg hi (by omega)
+  have hle : min p.buffer (time * 9 / 10) ≤ time := by
+    have : min p.buffer (time * 9 / 10) ≤ time * 9 / 10 := Int.min_le_right _ _
+    omega
+  have htl : timeLimit0 time inc (movesEff mtg p.maxRem) (margin p.buffer time)
+      = (time + inc * (movesEff mtg p.maxRem - 1) - min p.buffer (time * 9 / 10)) / movesEff mtg p.maxRem := by
+    unfold timeLimit0; rw [hmg, Int.tdiv_eq_ediv_of_nonneg (by omega)]
+  have hmin : clockMin0 fp p time inc oTime oInc mtg ponderOpt
+      = (time + inc * (movesEff mtg p.maxRem - 1) - min p.buffer (time * 9 / 10)) / movesEff mtg p.maxRem
+        + ponderBonus fp p time inc oTime oInc mtg ponderOpt := by
+    unfold clockMin0 ponderBonus
+    cases ponderOpt <;> simp [htl]
+  simp only [alloc, clockSoft, clockHard, clockMax0, budget, hmin, hmg, ← hmv]
+  exact ⟨trivial, trivial⟩
 
 end Tm
